@@ -28,6 +28,7 @@ type winKnobs struct {
 	MaxIssueDelayMs int64 `json:"MaxIssueDelay_ms"`
 	MaxClockSkewMs  int64 `json:"MaxClockSkew_ms"`
 	AudienceHook    bool  `json:"custom_audience_validator,omitempty"` // the application installs ValidateAudienceRestriction (accepts this SP's audience)
+	AllowIDP        bool  `json:"allow_idp_initiated,omitempty"`       // ServiceProvider.AllowIDPInitiated: says nothing about any validity window
 }
 
 type winStep struct {
@@ -99,6 +100,7 @@ func genLattice(g *Rng, idx uint64) *Plan {
 		MaxIssueDelayMs: Pick(g, int64(1000), 7000, 90_000, 660_000, 7_200_000),
 		MaxClockSkewMs:  Pick(g, int64(0), 1000, 180_000, 1_020_000),
 		AudienceHook:    g.Bool(0.15),
+		AllowIDP:        g.Bool(0.2),
 	}
 	st := winStep{Kind: "deliver", Entry: Pick(g, "xml", "xml", "post"), Lattice: int(idx) + 1}
 	st.SkewMs = Pick(g, int64(0), 1000, -1000, 250_000, -250_000)
@@ -138,6 +140,7 @@ func genWindows(g *Rng, tier string) *Plan {
 		MaxIssueDelayMs: Pick(g, int64(1000), 7000, 90_000, 660_000, 7_200_000),
 		MaxClockSkewMs:  Pick(g, int64(0), 1000, 180_000, 1_020_000, 1_020_000, -1000),
 		AudienceHook:    g.Bool(0.15),
+		AllowIDP:        g.Bool(0.2),
 	}
 	p := &Plan{Knobs: mustJSON(k)}
 	n := 1 + g.PickW(6, 3, 1)
@@ -166,6 +169,9 @@ func genWindows(g *Rng, tier string) *Plan {
 		}
 		layout := g.Intn(3) // 0: response signed, 1: assertion signed, 2: both
 		spec.Sign = layout != 1
+		if layout == 1 && g.Bool(0.4) {
+			spec.Destination = "" // an unsigned envelope without the (optional) Destination attribute: its IssueInstant counts all the same
+		}
 		na := 1 + g.PickW(4, 1)
 		for j := 0; j < na; j++ {
 			a := AsrtSpec{ID: fmt.Sprintf("id-as-%d-%d", i, j), Issuer: idpEntity, NameID: marker("nid", j),
@@ -178,6 +184,11 @@ func genWindows(g *Rng, tier string) *Plan {
 			st.Classes = append(st.Classes, fmt.Sprintf("as%d-issue:%s", j, c))
 			m, c = drawMargin(g, mcs)
 			a.NotBefore = i64(x - m + mcs)
+			if c == "far-out" && g.Bool(0.4) {
+				// the xs:dateTime end-of-day form: 24:00:00 of a day is 00:00:00 of the NEXT day. Whether the parser admits it or not, an
+				// assertion that is not valid before the end of the SP's today must not be accepted now ("@eod": resolved when the step runs)
+				a.NBText = "@eod" + Pick(g, "T24:00:00", "T24:00:00", "T24:00:00Z", "T24:00:00.000", "T24:00:00+00:00")
+			}
 			st.Classes = append(st.Classes, fmt.Sprintf("as%d-nb:%s", j, c))
 			m, c = drawMargin(g, mcs)
 			a.NotOnOrAfter = i64(x + m - mcs)
@@ -277,6 +288,7 @@ func execWindows(t *testing.T, p *Plan) *Result {
 			return fmt.Errorf("not for this SP")
 		}
 	}
+	spv.AllowIDPInitiated = k.AllowIDP
 	tr := &c02Transport{}
 	spv.HTTPClient = &http.Client{Transport: tr}
 	start := time.Now()
@@ -294,6 +306,15 @@ func execWindows(t *testing.T, p *Plan) *Result {
 		for ai := range st.Spec.Assertions {
 			if st.Spec.Assertions[ai].IssueText == "@wrap" {
 				st.Spec.Assertions[ai].IssueText = wrap
+			}
+			if a := &st.Spec.Assertions[ai]; strings.HasPrefix(a.NBText, "@eod") {
+				spNow := t0.Add(ms(st.DelayMs + st.BackMs + st.SkewMs)).UTC()
+				day := time.Date(spNow.Year(), spNow.Month(), spNow.Day(), 0, 0, 0, 0, time.UTC)
+				if day.AddDate(0, 0, 1).Sub(spNow) < ms(k.MaxClockSkewMs)+2*time.Hour {
+					day = day.AddDate(0, 0, 1) // too close to midnight for today's end to lie clearly ahead: tomorrow's
+				}
+				a.NBText = day.Format("2006-01-02") + strings.TrimPrefix(a.NBText, "@eod")
+				a.NotBefore = i64(day.AddDate(0, 0, 1).Sub(t0).Milliseconds())
 			}
 		}
 		respEl := BuildResponseEl(&st.Spec, t0)
@@ -315,6 +336,12 @@ func execWindows(t *testing.T, p *Plan) *Result {
 			respSt = worst(respSt, upper(now, st.ArtIssue, k.MaxIssueDelayMs))
 		}
 		asSt := map[string]int{}
+		eodForm := false // an instant in the 24:00:00 form: a lexical form the parser need not admit, so acceptance of this message is not demanded
+		for _, a := range st.Spec.Assertions {
+			if a.NBText != "" {
+				eodForm = true
+			}
+		}
 		movedAcross := false // a lower bound that the clock crossed during the call: acceptance is not demanded
 		anyInside, allOutside := false, true
 		nonFar := 0
@@ -345,7 +372,7 @@ func execWindows(t *testing.T, p *Plan) *Result {
 		switch {
 		case respSt == 2 || allOutside:
 			expect = "REJECT"
-		case respSt == 0 && anyInside && !(st.BackMs > 0 && movedAcross):
+		case respSt == 0 && anyInside && !(st.BackMs > 0 && movedAcross) && !eodForm:
 			expect = "ACCEPT"
 		}
 
@@ -419,7 +446,9 @@ func execWindows(t *testing.T, p *Plan) *Result {
 		}
 		switch expect {
 		case "DONT_CARE":
-			if st.BackMs > 0 && movedAcross {
+			if eodForm {
+				res.dontcare("end-of-day-lexical-form")
+			} else if st.BackMs > 0 && movedAcross {
 				res.dontcare("lower-bound-crossed-during-the-call")
 			} else {
 				res.dontcare("boundary-equality")
